@@ -1,0 +1,44 @@
+//go:build verif
+// +build verif
+
+package scanner
+
+import (
+	"context"
+
+	"github.com/logrange/logrange/pkg/scanner/model"
+	"github.com/logrange/logrange/pkg/storage"
+)
+
+// VerifStepScanner drives Scanner.sync call by call (no tickers, no persist job): verification harness, tag verif.
+type VerifStepScanner struct{ s *Scanner }
+
+// NewVerifStepScanner is NewScanner + loadState (what Run does before its first sync).
+func NewVerifStepScanner(cfg *Config, st storage.Storage) (*VerifStepScanner, error) {
+	s, err := NewScanner(cfg, st)
+	if err != nil {
+		return nil, err
+	}
+	if err := s.loadState(); err != nil {
+		return nil, err
+	}
+	return &VerifStepScanner{s: s}, nil
+}
+
+// Sync is one Scanner.sync: scanPaths, (hook scanner.sync.afterScanPaths), mergeDescs, syncWorkers, setDescs.
+func (v *VerifStepScanner) Sync(ctx context.Context, events chan<- *model.Event) { v.s.sync(ctx, events) }
+
+// Descs lists the descriptor set: id, file, offset, and whether a worker exists for the id and whether it has stopped.
+func (v *VerifStepScanner) Descs() (ids []string, hasWorker, stopped []bool) {
+	ws := v.s.workers.Load().(workers)
+	for id := range v.s.getDescs() {
+		ids = append(ids, id)
+		w, ok := ws[id]
+		hasWorker = append(hasWorker, ok)
+		stopped = append(stopped, ok && w.isStopped())
+	}
+	return
+}
+
+// Wait waits for the workers (after the context was cancelled).
+func (v *VerifStepScanner) Wait() { v.s.waitWg.Wait() }
